@@ -368,13 +368,13 @@ def handleCall (inp out : Toks) : String :=
            | some "map" =>
              if e.startsWith "simplify." then
                -- a member that simplifies to nothing (nil) leaves no geometry behind: the combination
-               -- of the members is the collection of those that are left, nil when none is
-               -- (`simplify` answers nil for every empty result).  The code as it is keeps such a
-               -- member as a nil INTERFACE entry (`simplify_collection`): reported as exactly that.
+               -- of the members is the collection of those that are left, in order, and a nil
+               -- interface when none is left (`simplify_collection`; simplify/helpers.go `collection`
+               -- drops nil results like `polygon` / `multiPolygon` drop theirs).  Demanded exactly: a
+               -- nil entry kept in the result is a `collection-map` failure like any other deviation.
                let surv := ms.filter (· != "nil")
                let want := if surv.isEmpty then "nil" else collTok surv
                if generic == want then (if surv.length == ms.length then "ok coll-map " ++ e else "ok coll-map-dropped " ++ e)
-               else if generic == collTok ms then s!"propfail result-nil-member {e}"
                else s!"propfail collection-map {e}"
              else if generic == collTok ms then "ok coll-map " ++ e
              else s!"propfail collection-map {e}"
